@@ -36,6 +36,7 @@ func difference(a map[string]string, b map[string]bool) []string {
 			new = append(new, key1)
 		}
 	}
+	sort.Strings(new) // (map iteration order would make the output differ from run to run)
 	return new
 }
 
